@@ -333,7 +333,8 @@ def statementEq (a b : Statement) : Bool :=
 def sqlOperatorWords : List String := ["NOT", "AND", "OR", "IN", "IS", "CASE", "WHEN", "THEN", "ELSE", "END", "AS"]
 
 def isKeywordFn (fn : Ident) : Bool :=
-  (Pql.knownFunction fn.name).isNone && sqlOperatorWords.contains (Sql.upper fn.name)
+  (Pql.knownFunction fn.name).isNone &&
+    (sqlOperatorWords.contains (Sql.upper fn.name) || fn.name.head? == some 36)   -- `$name(…)`: not an SQL word at all
 
 mutual
 def exprHasKeywordFn : Expr → Bool
